@@ -142,6 +142,7 @@ def control_names():
     if not names:
         raise engine.Undecided('anchor-lost', 'control_name has no alternatives')
     os.makedirs(os.path.join(engine.CACHE, 'gen'), exist_ok=True)
+    # (the Kani harness includes this file by its fixed path; scratch-tree runs share it)
     with open(os.path.join(engine.CACHE, 'gen', 'control_names.rs'), 'w') as f:
         f.write('pub const CONTROL_NAMES: &[&str] = &[%s];\n' % ', '.join('".%s"' % n for n in names))
     return names
